@@ -269,10 +269,8 @@ def write_file(ds, path_base):
     if ds['file'] == 'fits':
         from astropy.io import fits
         path = path_base + '.fits'
-        hdus = [fits.PrimaryHDU()]
-        for c in comps:
-            hdus.append(fits.ImageHDU(values_for(c['kind'], c['seed'], shape).astype(float), name=c['name']))
-        fits.HDUList(hdus).writeto(path, overwrite=True)
+        c = comps[0]      # one image per file; the other components of the dataset are added in memory
+        fits.HDUList([fits.PrimaryHDU(values_for(c['kind'], c['seed'], shape).astype(float))]).writeto(path, overwrite=True)
         return path
     raise ValueError(ds['file'])
 
@@ -307,8 +305,8 @@ def realise(spec, scratch):
                     raise NoRecipe('file gave %d datasets' % len(d))
             d.label = ds['label']
             if ds['file'] == 'fits':
-                for cid in d.main_components:
-                    cid.label = cid.label.lower()     # FITS upper-cases extension names
+                first = [c for c in ds['comps'] if c['kind'] in ('float', 'int', 'cat', 'floatnan')][0]
+                d.main_components[0].label = first['name']
         else:
             d = Data(label=ds['label'])
             if ds.get('coords') == 'identity':
@@ -343,7 +341,8 @@ def realise(spec, scratch):
                     d.add_component(values_for(k, c['seed'], shape), c['name'])
                 continue
             if ds.get('file') and k in ('float', 'int', 'cat', 'floatnan'):
-                continue
+                if ds['file'] != 'fits' or c['name'] == d.main_components[0].label:
+                    continue
             if k in ('float', 'int', 'floatnan'):
                 comp = Component(values_for(k, c['seed'], shape), units=c.get('units'))
                 d.add_component(comp, c['name'])
